@@ -452,7 +452,10 @@ func CalculateBestCacheSize(argb []uint32, quality int, refs *BackwardRefs, cach
 		ls := histogramNumCodes(i)
 		histoSlab[i].Literal = litSlab[litOff : litOff+ls : litOff+ls]
 		histoSlab[i].paletteCodeBits = i
-		histoSlab[i].resetStats()
+		// The slab is reused across encodes: clear every frequency array
+		// (resetStats alone leaves the red/blue/alpha/distance counts of the
+		// previous image in place).
+		histoSlab[i].Clear()
 		histos[i] = &histoSlab[i]
 		litOff += ls
 	}
